@@ -1,4 +1,7 @@
 import YaqsModel.Lemmas.Layers
+import YaqsModel.Lemmas.ColumnsDense
+import YaqsModel.Lemmas.ColumnsValues
+import YaqsModel.Props.C02
 
 /-!
 # C16 — barriers / measurements are transparent; labelled barriers sample where they stand
@@ -262,3 +265,302 @@ example : schedule [.gate1 1 0, .measure 1 0, .gate1 3 1, .gate2 2 1 0] ≠
     schedule (strip [.gate2 1 0 1, .measure 2 0, .gate1 2 2, .gate1 3 0]) := by decide
 
 end Yaqs.Layers
+
+
+/-!
+## extension (builder xk16): what the result columns ARE — states and values, composed end to end
+
+The theorems above fix the *event structure* of a run.  Here the events get their meaning: a gate application acts on
+the current state through the operator `sem g` of the gate, an `evaluate_observables` call records the current state
+under its column (`Lemmas/ColumnsDense.lean`: `OpAction`, `colStates`, `circuitOp`, `denseSem`).  Composed with
+C02 (`schedule_sound`, `c02_trajectory_is_circuit_unitary`), C04 Part D (`embedL_commute`), C14 (`apply_one_site_dense`) and
+C11 (`centre_walk`, `local_expect_dense*`, `rows_to_objects`) this gives the statement the property makes about the NUMBERS.
+
+Hypotheses that remain (each named where it enters):
+* **D27 exclusion** — the labelled barrier whose column is described spans all qubits (`hpre`, `hpost`); for a partial
+  labelled barrier the statement is false (`columns_partial_counterexample`).
+* **exact gate applications** — `Represents n (apply g) (denseSem … g)` for the gates of the circuit: no truncation in
+  the splits, exact Krylov exponential (one-qubit gates: C14 `apply_one_site_dense`, unconditional; two-qubit gates:
+  C02 `gate_sweep_exact_*` under "exact split" and "exact flow", error otherwise bounded by C09 / C19).
+* **canonical form at the evaluation** — left / right environments act as the identity on the evaluated tensor when the
+  centre is where `centre_walk` puts it (C10: gauge moves keep the state).
+* **one label predicate** — the column count is that of `label_count_agree` (case-insensitive, stripped label).
+-/
+namespace Yaqs.Layers
+
+open List
+
+section states
+variable {M S : Type*} [Monoid M] (A : OpAction M S) (sem : Instr → M)
+  (hcomm : ∀ g h, g.isGate = true → h.isGate = true → (∀ q, ¬(q ∈ g.qubits ∧ q ∈ h.qubits)) →
+    Commute (sem g) (sem h))
+include hcomm
+
+/-- **C16.V0 `column_state_ends`** (first and last column, every circuit).  In a sampling run of ANY circuit `c` —
+    barriers of any width, measurements anywhere — the first evaluation sees the initial state `s₀` (column 0) and the
+    last one sees `U_c · s₀` (column `num_mid_measurements + 1`), `U_c` = the product of the program's gates in program
+    order; in between there is one evaluation per labelled barrier, columns `1 … m`. -/
+theorem column_state_ends (numMid : Nat) (c : List Instr) (evs : List Event) (s0 : S)
+    (h : digitalTjm .strongSample numMid c = some evs) :
+    ∃ mid, colStates A sem s0 evs = (0, s0) :: (mid ++ [(numMid + 1, A.app (circuitOp sem c) s0)]) ∧
+      mid.map Prod.fst = List.range' 1 (c.filter Instr.isSB).length := by
+  unfold digitalTjm digitalTjmWith at h
+  rw [visit_eq c] at h
+  simp only [Option.some.injEq] at h
+  subst h
+  have hf : finalState A sem s0 (emit true 0 (visit c)) = A.app (circuitOp sem c) s0 :=
+    finalState_of_schedule A sem hcomm c _ (by rw [apps_emit]; rfl) s0
+  refine ⟨colStates A sem s0 (emit true 0 (visit c)), ?_, ?_⟩
+  · simp only [Mode.sampling, colStates, colStates_append, hf]
+  · rw [colStates_cols, evalCols_emit_true, sbCount_perm (visit_perm c)]
+    rfl
+
+/-- **C16.V1 `column_state`** (the state at a labelled barrier).  Let the labelled barrier of
+    `pre ++ sbarrier qs :: post` be full-width (D27 exclusion: `hpre`, `hpost`) and `k` the number of labelled barriers
+    in front of it.  Then the recorded states of the sampling run are `l₁ ++ (k+1, U_pre · s₀) :: l₂` where `l₁` holds
+    exactly the columns `0 … k`: column `k+1` is written once, with the state `U_pre · s₀`, `U_pre` = the product of the
+    gates in front of the barrier in PROGRAM order (later gate on the left) — although the simulator applied them in
+    its own layer order (`columns_in_place` + `schedule_sound`).  Column 0 is `s₀` and the last column `U_circuit · s₀`
+    (`column_state_ends`).  `sem` is any interpretation in which gates on disjoint qubits commute; `denseSem` is one
+    (`column_state_dense`). -/
+theorem column_state (numMid : Nat) (pre post : List Instr) (qs : List Nat)
+    (hpre : ∀ j ∈ pre, ∃ q ∈ j.qubits, q ∈ qs) (hpost : ∀ j ∈ post, ∃ q ∈ j.qubits, q ∈ qs) (s0 : S) :
+    ∃ evs l1 l2,
+      digitalTjm .strongSample numMid (pre ++ .sbarrier qs :: post) = some evs ∧
+      colStates A sem s0 evs
+        = l1 ++ ((pre.filter Instr.isSB).length + 1, A.app (circuitOp sem pre) s0) :: l2 ∧
+      l1.map Prod.fst = List.range ((pre.filter Instr.isSB).length + 1) := by
+  obtain ⟨before, after, hrun, hb, _, hcols⟩ := columns_in_place numMid pre post qs hpre hpost
+  have hf : finalState A sem s0 before = A.app (circuitOp sem pre) s0 :=
+    finalState_of_schedule A sem hcomm pre before hb s0
+  refine ⟨_, colStates A sem s0 before, colStates A sem (A.app (circuitOp sem pre) s0) after, hrun, ?_, ?_⟩
+  · rw [colStates_append, hf]
+    rfl
+  · rw [colStates_cols, hcols]
+
+/-- **C16.V3 `markers_transparent_values`** (transparency, as a statement about the recorded STATES and hence about every
+    value computed from them).  Remove any set of non-gate instructions from `c` — barriers, labelled or not, of any
+    width, and measurements (`keep` keeps every gate).  Then (1) the sampling run of `c`, (2) the sampling run of the
+    reduced circuit and (3) the run of `c` with `sample_layers = False` all terminate, and the LAST column of (1), the last
+    column of (2) and the single column of (3) record one and the same state `U_c · s₀`; column 0 of (1) and (2) is `s₀`.
+    Consequently every result entry `val s o` (any function of the recorded state, e.g. `⟨s|O|s⟩`) of the final column is
+    unchanged by removing the markers, and with `sample_layers = False` the single column is the final one
+    (`columns_off`, now with its value).  No width hypothesis: D27 concerns the intermediate columns only. -/
+theorem markers_transparent_values (keep : Instr → Bool) (hk : ∀ i, i.isGate = true → keep i = true)
+    (numMid numMid' : Nat) (c : List Instr) (s0 : S) :
+    ∃ evs evs' evsP mid mid',
+      digitalTjm .strongSample numMid c = some evs ∧
+      digitalTjm .strongSample numMid' (c.filter keep) = some evs' ∧
+      digitalTjm .strongPlain numMid c = some evsP ∧
+      colStates A sem s0 evs = (0, s0) :: (mid ++ [(numMid + 1, A.app (circuitOp sem c) s0)]) ∧
+      colStates A sem s0 evs' = (0, s0) :: (mid' ++ [(numMid' + 1, A.app (circuitOp sem c) s0)]) ∧
+      colStates A sem s0 evsP = [(0, A.app (circuitOp sem c) s0)] ∧
+      ∀ {V O : Type} (val : S → O → V) (o : O),
+        (colStates A sem s0 evs).getLast?.map (fun p => val p.2 o) = some (val (A.app (circuitOp sem c) s0) o) ∧
+        (colStates A sem s0 evs').getLast?.map (fun p => val p.2 o) = some (val (A.app (circuitOp sem c) s0) o) ∧
+        (colStates A sem s0 evsP).map (fun p => (p.1, val p.2 o)) = [(0, val (A.app (circuitOp sem c) s0) o)] := by
+  obtain ⟨evs, h1⟩ := Option.isSome_iff_exists.mp (loop_terminates .strongSample numMid c)
+  obtain ⟨evs', h2⟩ := Option.isSome_iff_exists.mp (loop_terminates .strongSample numMid' (c.filter keep))
+  obtain ⟨evsP, h3⟩ := Option.isSome_iff_exists.mp (loop_terminates .strongPlain numMid c)
+  obtain ⟨mid, hm, _⟩ := column_state_ends A sem hcomm numMid c evs s0 h1
+  obtain ⟨mid', hm', _⟩ := column_state_ends A sem hcomm numMid' (c.filter keep) evs' s0 h2
+  rw [circuitOp_filter sem keep hk c] at hm'
+  have hP : colStates A sem s0 evsP = [(0, A.app (circuitOp sem c) s0)] := by
+    have h3' := h3
+    unfold digitalTjm digitalTjmWith at h3'
+    rw [visit_eq c] at h3'
+    simp only [Option.some.injEq] at h3'
+    subst h3'
+    have hf : finalState A sem s0 (emit false 0 (visit c)) = A.app (circuitOp sem c) s0 :=
+      finalState_of_schedule A sem hcomm c _ (by rw [apps_emit]; rfl) s0
+    have he : colStates A sem s0 (emit false 0 (visit c)) = [] := by
+      have := colStates_cols A sem s0 (emit false 0 (visit c))
+      rw [evalCols_emit_false] at this
+      simpa using this
+    simp only [Mode.sampling, colStates_append, he, hf, colStates, List.nil_append]
+  refine ⟨evs, evs', evsP, mid, mid', h1, h2, h3, hm, hm', hP, ?_⟩
+  intro V O val o
+  have hl : ∀ (x y : Nat × S) (m : List (Nat × S)), (x :: (m ++ [y])).getLast? = some y := by
+    intro x y m
+    rw [← List.cons_append, List.getLast?_concat]
+  refine ⟨?_, ?_, ?_⟩
+  · rw [hm, hl]; rfl
+  · rw [hm', hl]; rfl
+  · rw [hP]; rfl
+
+end states
+
+/-! ### the dense-operator instance: 2ⁿ × 2ⁿ matrices -/
+
+section denseInst
+open Matrix Yaqs.Embed
+
+/-- **C16.V1d `column_state_dense`** (`column_state` in the dense-operator monoid).  Interpret a gate as its 2×2 / 4×4
+    matrix embedded on its own qubit(s) of the `n`-qubit register (`denseSem`; either orientation of a two-qubit gate, any
+    distance) acting on state vectors by `mulVec`.  Gates on disjoint qubits commute there (`denseSem_comm`, from C04 Part D
+    `embedL_commute`), so no commutation hypothesis is left: for a full-width labelled barrier the state vector recorded
+    in column `k+1` is `(G_m ⋯ G_2 G_1) ψ₀`, `G_1 … G_m` the embedded gates in front of the barrier in program order. -/
+theorem column_state_dense {K : Type*} [CommRing K] (n : Nat) (g1 : Nat → Matrix (Fin 2) (Fin 2) K)
+    (g2 : Nat → Matrix (Fin 2 × Fin 2) (Fin 2 × Fin 2) K) (numMid : Nat) (pre post : List Instr) (qs : List Nat)
+    (hpre : ∀ j ∈ pre, ∃ q ∈ j.qubits, q ∈ qs) (hpost : ∀ j ∈ post, ∃ q ∈ j.qubits, q ∈ qs)
+    (ψ0 : (Fin n → Fin 2) → K) :
+    ∃ evs l1 l2,
+      digitalTjm .strongSample numMid (pre ++ .sbarrier qs :: post) = some evs ∧
+      colStates (mulVecAction _) (denseSem n g1 g2) ψ0 evs
+        = l1 ++ ((pre.filter Instr.isSB).length + 1,
+            (((gates pre).map (denseSem n g1 g2)).reverse.prod) *ᵥ ψ0) :: l2 ∧
+      l1.map Prod.fst = List.range ((pre.filter Instr.isSB).length + 1) :=
+  column_state (mulVecAction _) (denseSem n g1 g2) (denseSem_comm n g1 g2) numMid pre post qs hpre hpost ψ0
+
+/-- **C16.V1t `column_state_is_trajectory`** (link to C02).  Over ℂ, the state recorded at a full-width labelled barrier
+    is the noise-free trajectory of C02 run on the program prefix: folding the gate operators over `schedule pre` — the
+    order in which `digital_tjm` applies them — from `ψ₀` (`c02_trajectory_is_circuit_unitary`). -/
+theorem column_state_is_trajectory (n : Nat) (g1 : Nat → Matrix (Fin 2) (Fin 2) ℂ)
+    (g2 : Nat → Matrix (Fin 2 × Fin 2) (Fin 2 × Fin 2) ℂ) (numMid : Nat) (pre post : List Instr) (qs : List Nat)
+    (hpre : ∀ j ∈ pre, ∃ q ∈ j.qubits, q ∈ qs) (hpost : ∀ j ∈ post, ∃ q ∈ j.qubits, q ∈ qs)
+    (ψ0 : (Fin n → Fin 2) → ℂ) :
+    ∃ evs l1 l2,
+      digitalTjm .strongSample numMid (pre ++ .sbarrier qs :: post) = some evs ∧
+      colStates (mulVecAction _) (denseSem n g1 g2) ψ0 evs
+        = l1 ++ ((pre.filter Instr.isSB).length + 1,
+            (schedule pre).foldl (fun ψ g => denseSem n g1 g2 g *ᵥ ψ) ψ0) :: l2 ∧
+      l1.map Prod.fst = List.range ((pre.filter Instr.isSB).length + 1) := by
+  rw [c02_trajectory_is_circuit_unitary (denseSem n g1 g2) (denseSem_comm n g1 g2) pre ψ0]
+  exact column_state_dense n g1 g2 numMid pre post qs hpre hpost ψ0
+
+end denseInst
+
+end Yaqs.Layers
+
+namespace Yaqs.ColumnValues
+
+open Matrix Yaqs.Embed Yaqs.Layers Yaqs.LocalOp Yaqs.Attribution
+
+/-- **C16.V2 `column_values`** (what the NUMBERS in a column are).  Circuit `pre ++ sbarrier qs :: post` on `n` qubits, the
+    labelled barrier full-width (D27 exclusion), `k` labelled barriers in front of it; the run starts from the MPS `ts0`.
+    Assume every gate application of the prefix is exact: `apply g` acts on the dense state of the chain as the embedded
+    gate matrix (`Represents`; no truncation in the splits, exact Krylov exponential — C14 `apply_one_site_dense`
+    discharges it for one-qubit gates, C02 `gate_sweep_exact_*` for two-qubit gates on NEIGHBOURING qubits under exact
+    split / exact flow; for long-range gates the windowed sweep is not exact and the hypothesis fails on the real code).
+    Then there is a unique place in the run — `before ++ eval (k+1) :: after`, `before` containing the evaluations of
+    columns `0 … k` only — where column `k+1` is written, the chain at that moment represents
+    `ψ_{k+1} = U_pre ψ₀` (product of the embedded gates of `pre` in program order), and for ANY list of one-site and
+    adjacent two-site observable objects, in any listing order (ids distinct): if the rows `evaluate_observables` writes
+    are the site-local contractions on the centre-walked copy (`Written`), taken with the centre where C11 `centre_walk`
+    puts it (the entries of `centresFrom`: the object's own first site), then after the stitching of `_run_strong_sim`
+    (C11 `rows_to_objects`) every object `o` of the user's list holds, in column `k+1`,
+    `re ⟨ψ_{k+1}| O_o |ψ_{k+1}⟩` — its own operator on its own site(s), on the state of the program prefix.
+    `re` is whatever is stored of the complex number (the code stores `.real`).  Column 0 and the last column are the
+    same statement with `column_state_ends` (`pre = []`, resp. the whole circuit) in place of `columns_in_place`. -/
+theorem column_values {K : Type*} [CommRing K] [StarRing K] {ι : Type*} [Fintype ι] [DecidableEq ι]
+    (n numMid : Nat) (g1 : Nat → Matrix (Fin 2) (Fin 2) K) (g2 : Nat → Matrix (Fin 2 × Fin 2) (Fin 2 × Fin 2) K)
+    (pre post : List Instr) (qs : List Nat)
+    (hpre : ∀ j ∈ pre, ∃ q ∈ j.qubits, q ∈ qs) (hpost : ∀ j ∈ post, ∃ q ∈ j.qubits, q ∈ qs)
+    (apply : Instr → List (Mps.Alg.Site (Fin 2) ι K) → List (Mps.Alg.Site (Fin 2) ι K))
+    (hrep : ∀ g ∈ pre, g.isGate = true → Represents n (apply g) (denseSem n g1 g2 g))
+    (ts0 : List (Mps.Alg.Site (Fin 2) ι K)) (hlen0 : ts0.length = n)
+    (obs : List Obs) (hnd : (obs.map (·.id)).Nodup) (hloc : ∀ o ∈ obs, o.kind = .local1 ∨ o.kind = .local2)
+    (data : Obs → ObsData n K) (hsite : ∀ o ∈ obs, (data o).site = o.site) (re : K → Rat) :
+    ∃ evs before after,
+      digitalTjm .strongSample numMid (pre ++ .sbarrier qs :: post) = some evs ∧
+      evs = before ++ .eval ((pre.filter Instr.isSB).length + 1) :: after ∧
+      evalCols before = List.range ((pre.filter Instr.isSB).length + 1) ∧
+      Psi n (mpsAfter apply ts0 before) = act (circuitOp (denseSem n g1 g2) pre) (Psi n ts0) ∧
+      ∀ (rows : List Rat) (hr : rows.length = (sortedObservables obs).length),
+        (∀ k' (hk : k' < (sortedObservables obs).length) c,
+          ((sortedObservables obs)[k'].id, c, c) ∈ centresFrom 0 (evaluateObservables (sortedObservables obs)) →
+          ∃ w, Written n (mpsAfter apply ts0 before) c (data (sortedObservables obs)[k']) w ∧
+            rows[k']'(hr ▸ hk) = re w) →
+        ∀ o ∈ obs, stitchAll (sortedObservables obs) 0 [rows] Store.empty o.id 0
+          = some (re (denseExpect (data o).op (act (circuitOp (denseSem n g1 g2) pre) (Psi n ts0)))) := by
+  obtain ⟨before, after, hrun, hb, _, hcols⟩ := columns_in_place numMid pre post qs hpre hpost
+  have htr := mps_tracks n apply (denseSem n g1 g2) pre hrep before (apps_from_schedule pre before hb) ts0 hlen0
+  have hfs := finalState_of_schedule (actAction (ι := ι) n) (denseSem n g1 g2) (denseSem_comm n g1 g2) pre before hb
+    (Psi n ts0)
+  have hΨ : Psi n (mpsAfter apply ts0 before) = act (circuitOp (denseSem n g1 g2) pre) (Psi n ts0) := by
+    rw [htr.2, hfs]; rfl
+  refine ⟨_, before, after, hrun, rfl, hcols, hΨ, ?_⟩
+  intro rows hr hrow o ho
+  have hcw := (centre_walk obs).2.1
+  have hperm := sorted_is_perm obs
+  have key := rows_to_objects obs hnd
+    (fun _ o => re (denseExpect (data o).op (act (circuitOp (denseSem n g1 g2) pre) (Psi n ts0)))) [rows]
+    (by intro r hrm; simp only [List.mem_singleton] at hrm; rw [hrm, hr])
+    (by
+      intro j hj k' hk
+      have hj0 : j = 0 := by simpa using hj
+      subst hj0
+      have hmem : (sortedObservables obs)[k'] ∈ obs := hperm.mem_iff.mp (List.getElem_mem hk)
+      have hmv : (sortedObservables obs)[k'].kind.moves = true := by
+        rcases hloc _ hmem with h | h <;> rw [h] <;> rfl
+      have hin : ((sortedObservables obs)[k'].id, (sortedObservables obs)[k'].site, (sortedObservables obs)[k'].site)
+          ∈ centresFrom 0 (evaluateObservables (sortedObservables obs)) := by
+        rw [hcw]
+        exact List.mem_map.mpr ⟨_, List.mem_filter.mpr ⟨List.getElem_mem hk, by simpa using hmv⟩, rfl⟩
+      obtain ⟨w, hw, hrw⟩ := hrow k' hk _ hin
+      have := written_dense n _ _ _ w (hsite _ hmem) hw
+      simp only [List.getElem_cons_zero]
+      rw [hrw, this, hΨ])
+    o ho
+  exact key.1 0 (by simp)
+
+end Yaqs.ColumnValues
+
+/-! ### non-vacuity of the extension theorems (instances: `Lemmas/ColumnsValues.lean`, end of file) -/
+
+namespace Yaqs.Layers.ColumnsExample
+open Yaqs Yaqs.CRat Matrix Yaqs.Layers Yaqs.Embed
+
+/-- the hypotheses of `column_state` / `column_state_dense` hold for a 3-qubit circuit over ℚ(i) (X, Y, Z, scaled H, CX in
+    both orientations, CZ; a measurement delays `y 2` by one layer; the labelled barrier lists its qubits as `[2,0,1]`) … -/
+example : (∀ j ∈ pre, ∃ q ∈ j.qubits, q ∈ [2, 0, 1]) ∧ (∀ j ∈ post, ∃ q ∈ j.qubits, q ∈ [2, 0, 1]) := by decide
+
+set_option maxRecDepth 100000 in
+example :
+    digitalTjm .strongSample 1 (pre ++ .sbarrier [2, 0, 1] :: post) =
+      some [.eval 0, .app1 1 0, .app1 4 1, .app1 2 2, .app2 1 0 1, .eval 1, .app1 3 0, .app2 2 2 1, .app2 1 1 0, .eval 2] ∧
+    colStates (mulVecAction _) (denseSem 3 g1 g2) ψ0
+      [.eval 0, .app1 1 0, .app1 4 1, .app1 2 2, .app2 1 0 1, .eval 1, .app1 3 0, .app2 2 2 1, .app2 1 1 0, .eval 2]
+      = [(0, ψ0), (1, circuitOp (denseSem 3 g1 g2) pre *ᵥ ψ0),
+         (2, circuitOp (denseSem 3 g1 g2) (pre ++ .sbarrier [2, 0, 1] :: post) *ᵥ ψ0)] ∧
+    (circuitOp (denseSem 3 g1 g2) pre *ᵥ ψ0) ![1, 1, 1] = CRat.I ∧
+    (circuitOp (denseSem 3 g1 g2) pre *ᵥ ψ0) ![1, 0, 1] = CRat.I ∧
+    (circuitOp (denseSem 3 g1 g2) (pre ++ .sbarrier [2, 0, 1] :: post) *ᵥ ψ0) ![1, 0, 1] = -CRat.I ∧
+    (circuitOp (denseSem 3 g1 g2) (pre ++ .sbarrier [2, 0, 1] :: post) *ᵥ ψ0) ![0, 1, 1] = CRat.I := by
+  decide +kernel
+
+
+/-- non-vacuity of `markers_transparent_values` on the same circuit: the run with every marker removed and the run with
+    `sample_layers = False` end in the state of the sampling run's last column -/
+example :
+    (digitalTjm .strongSample 0 ((pre ++ .sbarrier [2, 0, 1] :: post).filter Instr.isGate)).map
+        (fun evs => (colStates (mulVecAction _) (denseSem 3 g1 g2) ψ0 evs).getLast?)
+      = some (some (1, circuitOp (denseSem 3 g1 g2) (pre ++ .sbarrier [2, 0, 1] :: post) *ᵥ ψ0)) ∧
+    (digitalTjm .strongPlain 0 (pre ++ .sbarrier [2, 0, 1] :: post)).map
+        (colStates (mulVecAction _) (denseSem 3 g1 g2) ψ0)
+      = some [(0, circuitOp (denseSem 3 g1 g2) (pre ++ .sbarrier [2, 0, 1] :: post) *ᵥ ψ0)] := by
+  decide +kernel
+
+end Yaqs.Layers.ColumnsExample
+
+namespace Yaqs.ColumnValues.Example
+open Yaqs Yaqs.LocalOp Yaqs.Layers.ColumnsExample Matrix Yaqs.Layers Yaqs.Embed Yaqs.ColumnValues
+
+/-- non-vacuity of the hypotheses of `column_values`: (1) the exactness hypothesis `Represents` holds for the code's
+    one-qubit gate application (C14); (2) `Written` holds for the chain itself with the centre on site 1 (left neighbour
+    an isometry), and the written number is the dense expectation value: `⟨ψ| 1 ⊗ X |ψ⟩ = 2·3 + 3·2 = 12`. -/
+example :
+    Represents 2 (applyAt (ι := Fin 1) (gz 0) 1) (denseSem 2 gz gzz (.gate1 0 1)) ∧
+    Written 2 [L0, C0] 1 (.one (1 : Fin 2) (gz 0)) 12 ∧
+    denseExpect (ObsData.op (.one (1 : Fin 2) (gz 0))) (Psi 2 [L0, C0]) = 12 := by
+  refine ⟨?_, ?_, ?_⟩
+  · have := represents_applyAt (ι := Fin 1) 2 1 (by omega) (gz 0)
+    simpa [denseSem] using this
+  · refine ⟨[L0], [], C0, rfl, rfl, rfl, ?_, ?_, ?_⟩
+    · decide
+    · decide
+    · decide
+  · exact (written_dense 2 [L0, C0] 1 (.one (1 : Fin 2) (gz 0)) 12 rfl
+      ⟨[L0], [], C0, rfl, rfl, rfl, by decide, by decide, by decide⟩).symm
+
+end Yaqs.ColumnValues.Example
